@@ -1,1 +1,131 @@
-pub fn run(_seed: u64, _out: &str, _thorough: bool) {}
+//! Component-level differential inputs (Layer P): exhaustive byte tables and boundary tables for the pure parts.
+use std::io::Write;
+use std::panic::{catch_unwind, AssertUnwindSafe};
+use std::time::{Duration, UNIX_EPOCH};
+
+use tinylfu_cached::cache::verif;
+
+use crate::{Rng, Sink};
+
+fn hex(bytes: &[u8]) -> String { bytes.iter().map(|b| format!("{:02x}", b)).collect() }
+
+fn emit(sink: &mut Sink, input: String, output: String) {
+    writeln!(sink.input, "P {}", input).unwrap();
+    writeln!(sink.implementation, "R {}", output).unwrap();
+}
+
+pub fn run(seed: u64, out: &str, thorough: bool) {
+    let mut sink = Sink::new(out);
+    let mut rng = Rng::new(seed);
+    // ---- rows: all 256 byte values, both nibbles, a neighbour byte on each side
+    sink.both("# case pure rows");
+    for byte in 0u16..256 {
+        for neighbour in [0x00u8, 0xff, 0xa5] {
+            let bytes = vec![neighbour, byte as u8, neighbour];
+            for position in 0u64..7 {
+                let mut row = verif::VerifRow::new(bytes.clone());
+                let result = catch_unwind(AssertUnwindSafe(|| { row.increment_at(position); row.bytes() }));
+                emit(&mut sink, format!("row.inc {} {}", hex(&bytes), position), match result { Ok(b) => format!("row {}", hex(&b)), Err(_) => "panic".to_string() });
+                let row = verif::VerifRow::new(bytes.clone());
+                let result = catch_unwind(AssertUnwindSafe(|| row.get_at(position)));
+                emit(&mut sink, format!("row.get {} {}", hex(&bytes), position), match result { Ok(v) => format!("val {}", v), Err(_) => "panic".to_string() });
+            }
+            let mut row = verif::VerifRow::new(bytes.clone());
+            row.half_counters();
+            emit(&mut sink, format!("row.half {}", hex(&bytes)), format!("row {}", hex(&row.bytes())));
+            let mut row = verif::VerifRow::new(bytes.clone());
+            row.clear();
+            emit(&mut sink, format!("row.clear {}", hex(&bytes)), format!("row {}", hex(&row.bytes())));
+        }
+    }
+    // ---- next_power_2: every small value, around every power of two
+    sink.both("# case pure np2");
+    let mut values: Vec<u64> = (1..=130).collect();
+    for shift in 1..=63u32 { let p = 1u64 << shift; values.extend([p - 1, p]); if shift < 63 { values.push(p + 1); } }   // above 2^63 the u64 `+ 1` overflows (and no such sketch can be allocated): outside the model
+    for value in values {
+        let result = catch_unwind(|| verif::verif_next_power_2(value));
+        emit(&mut sink, format!("np2 {}", value), match result { Ok(v) => format!("val {}", v), Err(_) => "panic".to_string() });
+    }
+    // ---- SampledKey ordering: full table over small estimates / weights
+    sink.both("# case pure cmp");
+    let weights = [1i64, 2, 3, 1 << 62];
+    for e1 in 0u8..=16 { for w1 in weights { for e2 in 0u8..=16 { for w2 in weights {
+        let (ordering, equal) = verif::verif_sampled_key_cmp((1, w1, e1), (2, w2, e2));
+        let (_, equal_same_id) = verif::verif_sampled_key_cmp((1, w1, e1), (1, w2, e2));
+        emit(&mut sink, format!("cmp {} {} {} {}", w1, e1, w2, e2), format!("cmp {} {} {}", ordering, equal as u8, equal_same_id as u8));
+    } } } }
+    // ---- expiry classification
+    sink.both("# case pure expiry");
+    let time = |ns: u64| UNIX_EPOCH + Duration::from_nanos(ns);
+    let options = [None, Some(5_000_000_000u64), Some(5_000_000_001), Some(7_000_000_000)];
+    for existing in options { for new in options {
+        let (kind, first, second) = verif::verif_type_of_expiry_update(9, existing.map(time), new.map(time));
+        let ns = |t: Option<std::time::SystemTime>| t.map(|t| t.duration_since(UNIX_EPOCH).unwrap().as_nanos().to_string()).unwrap_or("-".to_string());
+        let text = match kind { 0 => "nothing".to_string(), 1 => format!("added:{}", ns(first)), 2 => format!("deleted:{}", ns(first)), _ => format!("updated:{}:{}", ns(first), ns(second)) };
+        let show = |o: Option<u64>| o.map(|v| v.to_string()).unwrap_or("-".to_string());
+        emit(&mut sink, format!("expiry {} {}", show(existing), show(new)), format!("expiry {}", text));
+    } }
+    // ---- hit ratio (a float: compared inside Rust, bit for bit, against hits / (hits + misses))
+    sink.both("# case pure ratio");
+    for hits in [0u64, 1, 2, 3, 1_000_000] { for misses in [0u64, 1, 2, 3, 1_000_000] {
+        let reported = verif::verif_hit_ratio(hits, misses);
+        let expected = if hits + misses == 0 { 0.0 } else { hits as f64 / (hits + misses) as f64 };
+        let zero_ok = (reported == 0.0) == (hits == 0);
+        emit(&mut sink, format!("ratio {} {}", hits, misses), if reported.to_bits() == expected.to_bits() && zero_ok { "ratio ok".to_string() } else { format!("ratio mismatch:{}:{}", reported, expected) });
+    } }
+    // ---- frequency counter with chosen seeds: random streams, every counters value
+    sink.both("# case pure fc");
+    let rounds = if thorough { 40 } else { 6 };
+    for counters in (1u64..=20).chain([31, 32, 33, 63, 64, 65, 100, 127, 128, 129]) {
+        for _ in 0..rounds {
+            let seeds = [rng.next(), rng.next(), rng.next(), rng.next()];
+            let mut counter = verif::VerifFrequencyCounter::new(counters, seeds);
+            let universe = rng.pick(&[2u64, 3, 8, 1 << 40]);
+            let mut ops = Vec::new();
+            let mut outs = Vec::new();
+            for _ in 0..(10 + rng.below(60)) {
+                let hash = if universe > 1000 { rng.next() } else { rng.below(universe) };
+                match rng.below(10) {
+                    0 => { counter.reset(); ops.push("r".to_string()); }
+                    1 | 2 | 3 => { ops.push(format!("e:{}", hash)); outs.push(counter.estimate(hash).to_string()); }
+                    _ => { counter.increment(hash); ops.push(format!("i:{}", hash)); }
+                }
+            }
+            let (_, total, rows) = counter.state();
+            emit(&mut sink, format!("fc {} {},{},{},{} | {}", counters, seeds[0], seeds[1], seeds[2], seeds[3], ops.join(" ")),
+                 format!("fc total={} est={} rows={}", total, outs.join(","), rows.iter().map(|r| hex(r)).collect::<Vec<_>>().join(";")));
+        }
+    }
+    // ---- TinyLFU with the real doorkeeper (answers tapped), including ageing
+    sink.both("# case pure lfu");
+    for counters in [1u64, 2, 3, 4, 5, 8, 10, 16, 33] {
+        for _ in 0..rounds {
+            verif::reset(false, true);
+            let mut lfu = verif::VerifTinyLFU::new(counters);
+            let seeds = lfu.sketch().seeds;
+            let universe = rng.pick(&[2u64, 3, 6]);
+            let mut ops = Vec::new();
+            let mut outs = Vec::new();
+            for _ in 0..(5 + rng.below(4 * counters + 10)) {
+                let hash = rng.below(universe) * 7919;
+                if rng.chance(30) {
+                    let estimate = lfu.estimate(hash);
+                    let taps = verif::drain_taps();
+                    let answer = taps.iter().find(|t| t.starts_with("dk.has")).map(|t| t.ends_with("true")).unwrap_or(false);
+                    ops.push(format!("e:{}:{}", hash, answer as u8));
+                    outs.push(estimate.to_string());
+                } else {
+                    lfu.increment_access(vec![hash]);
+                    let taps = verif::drain_taps();
+                    let added = taps.iter().find(|t| t.starts_with("dk.add")).map(|t| t.ends_with("true")).unwrap_or(false);
+                    ops.push(format!("a:{}:{}", hash, added as u8));
+                }
+            }
+            let sketch = lfu.sketch();
+            emit(&mut sink, format!("lfu {} {},{},{},{} | {}", counters, seeds[0], seeds[1], seeds[2], seeds[3], ops.join(" ")),
+                 format!("lfu incs={} est={} rows={}", sketch.total_increments, outs.join(","), sketch.rows.iter().map(|r| hex(r)).collect::<Vec<_>>().join(";")));
+        }
+    }
+    verif::reset(false, false);
+    sink.flush();
+}
